@@ -20,7 +20,8 @@ EXPLANATION = (
     "by Write.run is one variable built by os.path.join(self.output_directory, dirname, filename[.ext]); "
     "(e) MakeFilename stores filename/dirname/fileext only when absent or overwrite is set, and deletes prefix and "
     "suffix after using them; (g) LaTeXToPDF, which follows Write, does not default a missing output.changed to a falsy value: the "
-    "missing-flag handler sets the flag to True or to a comparison of the modification times of the .tex and the .pdf.  Does not decide file contents or mtimes over histories.")
+    "missing-flag handler sets the flag to True or to a comparison of the modification times of the .tex and the .pdf.  Does not decide file contents or mtimes over histories."    " Added after the eighth round of seeded changes and the second round of behaviour-preserving changes: (i) no name in lena.output is derived with strip/lstrip/rstrip and a word (several characters with a letter or digit) as argument."
+)
 RULES = {
     "C19-i": "FILE NAMES: no name in lena.output is derived with strip/lstrip/rstrip and a multi-character word as argument (a set of "
              "characters, not a suffix: 'x_pdf.pdf'.rstrip('.pdf') is 'x_')",
